@@ -155,7 +155,7 @@ def pol_conflict(old, new, pol):
 def run_sequence(c, tmp, rng, idx):
     import xyzpy
     engine = rng.choice(["h5netcdf", "h5netcdf", "joblib"])
-    name = rng.choice(["data", "data", "res.h5", "tab.dmp", "x.nc", "sub.dir/data"])
+    name = rng.choice(["data", "data", "res.h5", "tab.dmp", "x.nc", "sub.dir/data", "scan_v1.2", "sweep.T0.5"])
     d = os.path.join(tmp, f"s{idx}")
     os.makedirs(os.path.join(d, "sub.dir"), exist_ok=True)
     path = os.path.join(d, name)
@@ -166,8 +166,16 @@ def run_sequence(c, tmp, rng, idx):
     ctor_engine = ({"h5netcdf": "joblib", "joblib": "h5netcdf"}[engine]) if percall else engine
     ek = {"engine": engine} if percall else {}
 
+    # "the same data name, with or without a file extension": where the name carries no extension every
+    # harvester / save_merge_ds call spells it either way
+    known = (".h5", ".nc", ".dmp", ".zarr")
+    alt = path if any(k in name for k in known) else path + {"h5netcdf": ".h5", "joblib": ".dmp"}[engine]
+
+    def spell():
+        return rng.choice([path, path, alt])
+
     def new_h():
-        return xyzpy.Harvester(runner(0), data_name=path, engine=ctor_engine)
+        return xyzpy.Harvester(runner(0), data_name=spell(), engine=ctor_engine)
     hs = [new_h() for _ in range(2)]
     model_ops, obs = [], []
     abstract, synced_ok = None, True        # the property's own bookkeeping (dict point -> value)
@@ -226,7 +234,7 @@ def run_sequence(c, tmp, rng, idx):
             elif kind == "save_merge":
                 _, a, b, v, pol = op
                 ds = runner(v).run_combos({"a": a, "b": b}, verbosity=0)
-                xyzpy.save_merge_ds(ds, path, overwrite=pol, engine=engine)
+                xyzpy.save_merge_ds(ds, spell(), overwrite=pol, engine=engine)
             elif kind == "add_fail":
                 _, who, a, b, v, pol, tmp_exists = op
                 ds = runner(v).run_combos({"a": a, "b": b}, verbosity=0)
